@@ -253,6 +253,100 @@ def check_responses(tier):
   return {'n': n, 'keys': n, 'viol': viol, 'sample': None}
 
 
+class Broker(object):
+  """A Kafka v0 broker written on the independent codec: answers metadata requests (one broker, one topic, one partition led by it)
+  and produce requests (echoing topic and partition, with the scripted error code)."""
+  ordered = False
+
+  def __init__(self, net, conn, script):
+    self.conn = conn
+    self.buf = bytearray()
+    self.script = script
+    self.log = []
+
+  def feed(self, data):
+    self.buf += data
+    while len(self.buf) >= 4:
+      (n,) = struct.unpack('>i', bytes(self.buf[:4]))
+      if len(self.buf) < 4 + n:
+        break
+      fr = bytes(self.buf[:4 + n])
+      del self.buf[:4 + n]
+      rq = K.parse_request(fr)
+      self.log.append((rq['api_key'], rq['correlation_id']))
+      if rq['api_key'] == 3:
+        self.conn.rx += K.frame(K.metadata_response(rq['correlation_id'], [(0, b'h0', 9092)], [(0, b't', [(0, 0, 0, [0], [0])])]))
+      else:
+        t = K.parse_produce(rq['body'])['topics'][0]
+        self.conn.rx += K.frame(K.produce_response(rq['correlation_id'],
+                                                   [(t['topic'], [(t['partitions'][0]['partition'], self.script['code'], self.script['offset'])])]))
+      self.conn.wake()
+
+  def on_client_close(self):
+    pass
+
+
+def check_client_errors(codes):
+  """The complete Kafka client (router, balancer, serializer, shared sink, resurrector, transport) against a scripted broker:
+  for every error code the produce response carries, the reply reaches the caller of that Put - as the decoded response for
+  code 0, as a KafkaError carrying exactly that code otherwise."""
+  import gevent
+  from scales.kafka import Kafka
+  from scales.kafka.protocol import KafkaError
+  viol = []
+  n = 0
+  world.reset()
+  lp = vloop.loop()
+  net = simnet.new_net()
+  script = {'code': 0, 'offset': 5}
+  net.add_endpoint('h0', 9092, lambda net, c: Broker(net, c, script))
+  box = {}
+  gevent.spawn(lambda: box.setdefault('c', Kafka.NewBuilder().SetUri('tcp://h0:9092').Build()))
+
+  def pump(tmax):
+    end = lp.now() + tmax
+    for _ in range(5000):
+      vloop.run_ready()
+      evs = net.enabled_events()
+      if evs:
+        net.fire(evs[0], 'ok')
+        continue
+      t = lp.next_timer()
+      if t is None or t.at > end:
+        break
+      lp.fire(t)
+  pump(1.0)
+  client = box.get('c')
+  if client is None:
+    return {'n': 1, 'keys': 1, 'viol': [{'clause': 'C15.client', 'message': 'Kafka client could not be built: %r' % (lp.errors[:1],), 'sig': {}}],
+            'sample': None}
+  for code in codes:
+    n += 1
+    script['code'] = code
+    script['offset'] = 1000 + (code % 7)
+    ar = client.Put_async(b't', [b'payload-%d' % code])
+    pump(0.3)
+    bad = None
+    if not ar.ready():
+      bad = 'the caller of Put was never answered (greenlet errors: %r)' % ([(e[1], str(e[2])[:60]) for e in lp.errors[:2]],)
+      lp.errors = []
+    elif code == 0:
+      want = [(b't', 0, 0, script['offset'])]
+      got = [tuple(x) for x in ar.value] if ar.successful() and ar.value is not None else repr(ar.exception)
+      if got != want:
+        bad = 'Put returned %r, the broker encoded %r' % (got, want)
+    else:
+      e = ar.exception
+      inner = getattr(e, 'inner_exception', e)
+      if not isinstance(inner, KafkaError) or inner.error_code != code:
+        bad = 'Put completed with %r (value %r), expected a KafkaError carrying code %d' % (inner, ar.value if ar.successful() else None, code)
+    if bad:
+      viol.append({'clause': 'C15.reply-delivery', 'message': 'produce response with error code %d: %s' % (code, bad), 'sig': {'code': code}})
+      if len(viol) >= 3:
+        break
+  return {'n': n, 'keys': n, 'viol': viol, 'sample': {'client_error_codes': [codes[0], codes[-1]]}}
+
+
 def check_correlation():
   """Two (three) concurrent requests, replies in every order: each caller gets the reply with its correlation id."""
   viol = []
@@ -296,6 +390,12 @@ def main(tier, seed):
     out += explore.pmap('vt.checks.c15', 'check_responses', [(tier,)], pool, seed)
     out += explore.pmap('vt.checks.c15', 'check_correlation', [()], pool, seed)
     out += explore.pmap('vt.checks.c15', 'check_client_ids', [()], pool, seed)
+    if tier == 'quick':
+      codes = list(range(-40, 140)) + [-32768, -32767, -129, 255, 256, 32766, 32767]
+      jobs = [(codes[i:i + 24],) for i in range(0, len(codes), 24)]
+    else:
+      jobs = [(list(range(lo, lo + 1024)),) for lo in range(-32768, 32768, 1024)]
+    out += explore.pmap('vt.checks.c15', 'check_client_errors', jobs, pool, seed)
   finally:
     pool.close()
     pool.join()
@@ -311,7 +411,8 @@ def main(tier, seed):
   return rep.finish(
     rule='full product of topic x partition x acks x payload list through the real serializer and transport, parsed by an independent '
          'Kafka v0 codec (sizes, CRC32, header fields); every produce/metadata response from small domains incl. int64 extremes through '
-         'the real decoder; 2-3 concurrent requests with replies in every order', exhaustive=True)
+         'the real decoder; 2-3 concurrent requests with replies in every order; the complete Kafka client against a scripted broker '
+         'for every produce error code in [-40, 140) plus int16 extremes (thorough: all 65536 int16 codes)', exhaustive=True)
 
 
 def replay(path):
